@@ -195,6 +195,8 @@ func c01Sequences(c *vrep.Ctx) {
 // c01Small: user-added corpora over the small vocabulary.
 func c01Small(c *vrep.Ctx) {
 	t, _ := strconv.ParseFloat(c.Param("t", "0.8"), 64)
+	vSmallSettings(c.Param("vocab", "ascii"), 0)
+	c.Bound("vocabulary", fmt.Sprintf("%q", vSmallVocab))
 	q := computeQ(t)
 	minLen := q
 	maxLen := c.Pick(5, 6)
